@@ -135,8 +135,15 @@ void ctl_destroy(struct ctl *ctl, bool owner)
 {
     if (ctl) {
 	UT_SAVE_ERRNO;
-	while (ctl->num_clients > 0)
-	    remove_client(ctl, 0);
+	while (ctl->num_clients > 0) {
+	    if (owner)
+		remove_client(ctl, 0);
+	    else {
+		/* the epoll instance is shared with the owner: close only */
+		ctl->num_clients--;
+		ut_close(ctl->clients[ctl->num_clients].fd);
+	    }
+	}
 
 	struct sockaddr_un laddr;
 
